@@ -202,6 +202,16 @@ def columns_scenario(shard):
     return {'k': 'chain', 'flavour': 'chain', 'layers': [src, t, {'k': 'columns', 'names': ['x'], 'root': 0, 'shard': shard}]}
 
 
+def join_scenario():
+    """Join of two datasets on a key field: the first use of the pipeline computes the id mapping (every key function of both
+    sides) inside whichever call comes first; two calls that both miss it interleave at the user functions"""
+    left = {'k': 'source', 'cls': 'JL', 'ids': ['a', 'b'], 'params': {}, 'cargs': {}, 'defaults': {},
+            'fields': {'k': {'args': ['i'], 'f': 'JL.k', 'table': [[['a'], 'u'], [['b'], 'v']]}, 'x': {'args': ['i'], 'f': 'JL.x'}}}
+    right = {'k': 'source', 'cls': 'JR', 'ids': ['c', 'd'], 'params': {}, 'cargs': {}, 'defaults': {},
+             'fields': {'k': {'args': ['i'], 'f': 'JR.k', 'table': [[['c'], 'u'], [['d'], 'v']]}, 'z': {'args': ['i'], 'f': 'JR.z'}}}
+    return {'k': 'chain', 'flavour': 'chain', 'layers': [{'k': 'join', 'left': left, 'right': right, 'on': ['k'], 'how': 'inner'}]}
+
+
 def run_schedule(desc, plans, schedule, gated_keys=False):
     if desc['layers'][-1]['k'] == 'columns':
         os.makedirs(paths.SCRATCH, exist_ok=True)
@@ -210,6 +220,7 @@ def run_schedule(desc, plans, schedule, gated_keys=False):
             return _run_schedule(desc, plans, schedule, [root], gated_keys)
         finally:
             shutil.rmtree(root, ignore_errors=True)
+            shutil.rmtree(root + '-twin', ignore_errors=True)
     return _run_schedule(desc, plans, schedule, None, gated_keys)
 
 
@@ -258,10 +269,16 @@ def _run_schedule(desc, plans, schedule, roots, gated_keys=False):
     # the node hash every call gets in a sequential execution (computed before the threads start)
     from .codec import hash_to_json
     seq_hash = {}
+    # computed on a twin pipeline built from the same description (its own layer objects and caches), so that the pipeline under
+    # test is used for the first time by the threads
+    twin = (Builder(world, roots=[r_ + '-twin' for r_ in roots]) if roots else Builder(world)).layer(desc)
+    twin_fns = {}
     for plan in plans:
         for field, key in plan:
             try:
-                seq_hash[(field, key)] = canon(hash_to_json(fns[field].get_hash(key)[0].value, world))
+                if field not in twin_fns:
+                    twin_fns[field] = twin._compile(field)
+                seq_hash[(field, key)] = canon(hash_to_json(twin_fns[field].get_hash(key)[0].value, world))
             except Exception as e:
                 seq_hash[(field, key)] = 'ERR ' + exc_name(e)
 
@@ -295,6 +312,11 @@ def _run_schedule(desc, plans, schedule, roots, gated_keys=False):
 def expected(plans, desc=None):
     """the sequential value of every call: symbolic, so it depends on (field, key) only"""
     out = []
+    if desc is not None and desc['layers'][0]['k'] == 'join':
+        owner = {'x': ('JL.x', {'u': 'a', 'v': 'b'}), 'z': ('JR.z', {'u': 'c', 'v': 'd'})}
+        for plan in plans:
+            out.append([canon({'app': [owner[f][0], [owner[f][1][k]], [], []]}) for f, k in plan])
+        return out
     if desc is not None and desc['layers'][0]['k'] == 'merge':
         owner = {'a': 0, 'b': 1}
         for plan in plans:
@@ -322,7 +344,7 @@ def check_one(desc, plans, schedule, gated_keys=False):
                                 f'a sequential execution computes {r["seq_hash"][:100]}: an evaluation received the node hash of another computation')
             elif r['ok'] != w:
                 problems.append(f'thread {tid}: {call[0]}({call[1]!r}) returned {r["ok"][:120]}, every sequential execution returns {w[:120]}')
-    unlocked = [(what, tid) for what, tid, held in log if not held]
+    unlocked = [(what, tid) for what, tid, held in log if not held and tid is not None]
     if unlocked:
         problems.append(f'the memory cache table was accessed without holding its lock: {unlocked[:3]} ({len(unlocked)} accesses)')
     return problems, len(trace)
@@ -344,7 +366,11 @@ def run_shard(args):
             plans.append([('x', rng.choice(['a', 'b', 'c'])) for _ in range(rng.choice([1, 2]))])
         if len({k for p in plans for _, k in p}) == 1:
             plans[-1][-1] = ('x', 'b' if plans[0][0][1] == 'a' else 'a')
-    elif r < 0.5:
+    elif r < 0.4:
+        desc = join_scenario()
+        for t in range(n_threads):
+            plans.append([(rng.choice(['x', 'z']), rng.choice(['u', 'v'])) for _ in range(rng.choice([1, 2]))])
+    elif r < 0.6:
         desc = merge_scenario(size)
         for t in range(n_threads):
             plans.append([('pair', rng.choice(['a', 'b'])) for _ in range(rng.choice([1, 2]))])
